@@ -67,6 +67,18 @@ pub mod verif_facade {
                     let _ = std::fs::remove_dir_all(&dir);
                     r
                 }
+                "taskmsg" => crate::progress_fancy::verif_taskmsg(
+                    arg(0),
+                    args.get(1).and_then(|s| s.parse().ok()).unwrap_or(0),
+                    args.get(2).and_then(|s| s.parse().ok()).unwrap_or(80),
+                ),
+                "bar" => {
+                    let mut c = [0usize; 6];
+                    for i in 0..6 {
+                        c[i] = args.get(i).and_then(|s| s.parse().ok()).unwrap_or(0);
+                    }
+                    crate::progress_fancy::verif_bar(c)
+                }
                 "load" => crate::load::verif_load_text(arg(0)),
                 "canon" => {
                     let mut s = unsafe { String::from_utf8_unchecked(arg(0)) };
